@@ -667,16 +667,20 @@ class ClassGen:
             elif depth < 3:
                 # anonymous struct with trailing declarators sharing one id
                 kk = rng.choice(["struct", "union"])
-                outer_lines.append(ind + "%s {" % kk)
-                outer_lines.append(ind + "  int in%d;" % k)
                 tr = rng.choice([[], ["v%d" % k], ["v%d" % k, "w%d" % k]])
-                outer_lines.append(ind + "}" + (" " + ", ".join(tr) if tr else "") + ";")
+                # cv-qualifiers in front of the key or behind the brace belong to the type of every trailing declarator
+                lead = rng.choice(["", "", "const ", "volatile "]) if tr else ""
+                trail = rng.choice(["", "", " const"]) if tr and not lead else ""
+                cv = dict(const=("const" in lead or "const" in trail), volatile="volatile" in lead)
+                outer_lines.append(ind + "%s%s {" % (lead, kk))
+                outer_lines.append(ind + "  int in%d;" % k)
+                outer_lines.append(ind + "}" + trail + (" " + ", ".join(tr) if tr else "") + ";")
                 sub = dict(name=None, key=kk, bases=[], final=False, fields=[("in%d" % k, "public", {})], methods=[], friends=[], typedefs=[],
                            using=[], using_alias=[], enums=[], forward_decls=[], classes=[], access=access, anon=True)
                 exp["classes"].append(sub)
                 if tr:
                     for nm in tr:
-                        exp["fields"].append((nm, access, {"anon_of": len(exp["classes"]) - 1}))
+                        exp["fields"].append((nm, access, {"anon_of": len(exp["classes"]) - 1, "cv": [cv["const"], cv["volatile"]]}))
                 else:
                     exp["fields"].append((None, access, {"anon_of": len(exp["classes"]) - 1}))
         outer_lines.append(indent + "};")
@@ -808,6 +812,8 @@ def compare_class(cs, exp, path, anon_seen):
                 t = getattr(t, "ptr_to", None) or getattr(t, "array_of", None)
             if t.typename.segments[-1] != sub.class_decl.typename.segments[-1]:
                 return "%s: declarator %r of an anonymous type does not carry that type's id" % (where, n)
+            if "cv" in a and [t.const, t.volatile] != list(a["cv"]):
+                return "%s: declarator %r of an anonymous type is reported const=%s volatile=%s, written %r" % (where, n, t.const, t.volatile, a["cv"])
     # methods
     if len(cs.methods) != len(exp["methods"]):
         return "%s: %d methods reported, %d written (%r)" % (where, len(cs.methods), len(exp["methods"]), [m.name.segments[-1].name for m in cs.methods])
